@@ -42,7 +42,7 @@ def _alarm(*a):
     raise SlowConstruction()
 
 
-def construct(factory, text, seconds=3):
+def construct(factory, text, seconds=1):
     """greenery's lego->fsm conversion (third party) can take minutes on some nested repetitions; such
     expressions are counted as skipped, never judged."""
     import signal
@@ -91,12 +91,34 @@ class Mon:
     def greenery_disagrees(self, text, w):
         """Attribution only (used after a violation): does the pinned third-party greenery library itself, before cpppo
         translates anything, interpret the expression differently from standard semantics on some prefix of w?"""
+        import signal
+        cache = self.__dict__.setdefault('_gd_cache', {})
+        if (text, w) in cache:
+            return cache[(text, w)]
+        old_handler = signal.signal(signal.SIGALRM, _alarm)
+        signal.alarm(2)
+        try:
+            r = self._greenery_disagrees(text, w)
+        except SlowConstruction:
+            r = False
+        finally:
+            signal.alarm(0)
+            signal.signal(signal.SIGALRM, old_handler)
+        cache[(text, w)] = r
+        return r
+
+    def _greenery_disagrees(self, text, w):
         try:
             import greenery.lego
             f = greenery.lego.parse(text).fsm()
             cre = re.compile(text, re.DOTALL)
             if isinstance(w, bytes):
-                w = w.decode('latin-1')
+                for cut in range(len(w), -1, -1):       # longest prefix that is valid UTF-8
+                    try:
+                        w = w[:cut].decode('utf-8')
+                        break
+                    except UnicodeDecodeError:
+                        continue
             st = f.initial
             for i in range(len(w) + 1):
                 if (st in f.finals) != (cre.fullmatch(w[:i]) is not None):
@@ -117,7 +139,7 @@ class Mon:
         real_violation = ctx.violation
 
         def attributed(key, what, wit):
-            if kind in ('str', 'bytes-ascii') and self.greenery_disagrees(text, w):
+            if kind in ('str', 'bytes-ascii', 'bytes-multibyte') and self.greenery_disagrees(text, w):
                 key = 'greenery-misparses-expression'
             real_violation(key, what, wit)
         viol = attributed
@@ -281,7 +303,7 @@ def run(ctx):
         if ctx.time_left() < SOFT[ctx.tier] * 0.25:
             break
         ast = rx.random_ast(rng, rng.choice([5, 5, 6, 6, 7, 8]), rx.ATOMS_AB + [('lit', 'c'), ('set', 'bc'), ('lit', '.'), ('lit', '*')])
-        if rx.postfixed_twice(ast):
+        if rx.postfixed_twice(ast) or rx.expanded_size(ast) > 60:
             continue
         alpha = 'abc.*d'
         inputs = [''.join(rng.choice(alpha) for _ in range(rng.randrange(0, 12))) for _ in range(25)]
@@ -294,7 +316,7 @@ def run(ctx):
             break
         atoms = [rng.choice(mb_atoms[1:])] if rng.random() < 0.8 else mb_atoms
         ast = rx.random_ast(rng, rng.choice([1, 2, 3, 4, 5, 6]), atoms)
-        if rx.postfixed_twice(ast):
+        if rx.postfixed_twice(ast) or rx.expanded_size(ast) > 60:
             continue
         text = rx.to_text(ast)
         chars = sorted(rx.chars_of(ast))
@@ -327,7 +349,7 @@ def run(ctx):
         if ctx.expired():
             break
         ast = rx.random_ast(rng, rng.choice([2, 3, 4]), mb_atoms + [('any',), ('nset', 'a')])
-        if rx.postfixed_twice(ast) or not rx.has(ast, ('any', 'nset')):
+        if rx.postfixed_twice(ast) or not rx.has(ast, ('any', 'nset')) or rx.expanded_size(ast) > 60:
             continue
         text = rx.to_text(ast)
         try:
